@@ -1,4 +1,4 @@
-import Driver.Emplace
+import Driver.Ops
 open FV Drv
 
 partial def loop (h : IO.FS.Stream) (out : IO.FS.Stream) (types : Array Ty) : IO Unit := do
@@ -49,6 +49,13 @@ partial def loop (h : IO.FS.Stream) (out : IO.FS.Stream) (types : Array Ty) : IO
         | some (i2, []) => runA t a16.toNat! i1 i2 pre
         | _ => "BAD-INIT"
       | _ => "BAD-INIT"
+    out.putStrLn r
+    loop h out types
+  | "O" :: tid :: _place :: a16 :: pre :: rest =>
+    let t := types[tid.toNat!]?.getD (.prim 0 1)
+    let r := match parseOp rest with
+      | some op => runO t a16.toNat! (parseHex pre) op
+      | none => "BAD-OP"
     out.putStrLn r
     loop h out types
   | _ =>
